@@ -343,7 +343,7 @@ pub fn fen_edits(run: &mut Run, f: &(dyn Fn(&mut Ctx, &str) + Sync)) {
 pub fn run(run: &mut Run) {
     run.counter_names = NAMES;
     run.assumptions = vec![
-        "bound: all strings up to the stated length over one representative per byte class the parser distinguishes (incl. 2-, 3- and 4-byte characters), all single-edit neighbours of canonical texts, a field product for FEN, token-sequence products for move lists; nothing is claimed beyond these bounds".into(),
+        "bound: all strings up to the stated length over one representative per byte class the parser distinguishes (incl. 2-, 3- and 4-byte characters), all single-edit neighbours of canonical texts, all double-edit neighbours of the canonical SAN / UCI texts of P30 moves and of 8 (thorough 44) FEN records, a field product for FEN, token-sequence products for move lists; nothing is claimed beyond these bounds".into(),
         "every call runs under catch_unwind in a child process; an abort is located through the crash-case slots".into(),
     ];
     let thorough = run.thorough();
@@ -415,6 +415,42 @@ pub fn run(run: &mut Run) {
         }
     });
     fen_edits(run, &|ctx, t| fen_text(ctx, t));
+    // (b2) double-edit neighbours (every edit of every edit) of the canonical SAN and UCI text of
+    // every legal move of all P30 positions, read in its position
+    {
+        let np = p30.len();
+        const SPLIT: usize = 8;
+        run.par_shards(&format!("EDITS2: double-edit neighbours of the canonical SAN / UCI text of every legal move of {} P30 positions (in position)", np), np * SPLIT, |ctx, sh| {
+            let p = p30[sh / SPLIT];
+            let Some(b) = board_of(&p) else { return };
+            let bs = vec![(text::fen(&p), b)];
+            let legal = p.legal();
+            let mut seen = std::collections::HashSet::new();
+            for (k, &m) in legal.iter().enumerate() {
+                if k % SPLIT != sh % SPLIT {
+                    continue;
+                }
+                let t = text::san(&p, &legal, m);
+                if seen.insert(t.clone()) {
+                    strs::edits2(&t, &strs::SIGMA_SAN, &mut |s| san_text(ctx, s, &bs));
+                }
+                let u = text::uci(m);
+                if seen.insert(u.clone()) {
+                    strs::edits2(&u, &strs::SIGMA_UCI, &mut |s| uci_text(ctx, s, &bs));
+                }
+            }
+        });
+        // double-edit neighbours of FEN records (split on the first edit); quick: 8 records, thorough: the 44 of EDITS
+        let mut fens: Vec<String> = [1usize, 8, 0, 4, 5, 22, 26, 27].iter().map(|&i| text::fen(&p30[i])).collect();
+        if thorough {
+            fens = p30.iter().map(text::fen).collect();
+            fens.extend(crate::universe::seeds().iter().take(10).map(text::fen));
+        }
+        const FSPLIT: usize = 32;
+        run.par_shards(&format!("EDITS2: double-edit neighbours of the FEN records of {} positions", fens.len()), fens.len() * FSPLIT, |ctx, sh| {
+            strs::edits2_slice(&fens[sh / FSPLIT], &SIGMA_FEN_EDIT, sh % FSPLIT, FSPLIT, &mut |s| fen_text(ctx, s));
+        });
+    }
     // SAN texts in positions where many pieces of one kind reach one square (ambiguity paths):
     // the canonical and the undisambiguated text of every pseudo-legal move, in its position
     run.par_shards("SANMANY positions x canonical / undisambiguated SAN of every move", crate::universe::SANMANY_SHARDS, |ctx, sh| {
